@@ -13,7 +13,9 @@ use std::collections::HashSet;
 use std::sync::Mutex;
 use std::sync::atomic::{AtomicU64, Ordering};
 
-const COOKIE_SECRET: &[u8] = b"c01-cookie-secret";
+/// a secret with structure (two lines, separators, a trailing line break - what a secret file written by a shell
+/// command holds): only the whole of it is the key
+const COOKIE_SECRET: &[u8] = b"c01 secret line one\nsecond;line, three \n";
 const CK_NAME: &str = "Cookie_Holder";
 const CK_UUID: u128 = 0x0987_9557_e479_45a9_b434_a56377674627;
 
@@ -97,6 +99,9 @@ fn build(s: &Spec, stale: &[u8]) -> Case {
         "transfer-cookie-other-ip" => Some(Some(valid_cookie(COOKIE_SECRET, 5, "203.0.113.99:40123", CK_NAME, CK_UUID, &props(1)))),
         "transfer-cookie-expired" => Some(Some(valid_cookie(COOKIE_SECRET, case.cfg.expiry as i64 + 60, &case.cfg.client_addr.to_string(), CK_NAME, CK_UUID, &props(1)))),
         "transfer-cookie-forged" => Some(Some(valid_cookie(b"not-the-secret", 5, &case.cfg.client_addr.to_string(), CK_NAME, CK_UUID, &props(1)))),
+        "transfer-cookie-forged-empty-key" => Some(Some(valid_cookie(b"", 5, &case.cfg.client_addr.to_string(), CK_NAME, CK_UUID, &props(1)))),
+        "transfer-cookie-forged-first-line" => Some(Some(valid_cookie(b"c01 secret line one", 5, &case.cfg.client_addr.to_string(), CK_NAME, CK_UUID, &props(1)))),
+        "transfer-cookie-forged-trimmed" => Some(Some(valid_cookie(b"c01 secret line one\nsecond;line, three", 5, &case.cfg.client_addr.to_string(), CK_NAME, CK_UUID, &props(1)))),
         _ => None,
     };
     case.script = login.steps();
@@ -258,7 +263,7 @@ fn judge(s: &Spec, case: &Case, obs: &Obs) -> Vec<(String, String)> {
 }
 
 fn specs(thorough: bool) -> Vec<Spec> {
-    let intents = ["login", "login-secret", "transfer-nosecret", "transfer-nocookie", "transfer-cookie", "transfer-cookie-other-ip", "transfer-cookie-expired", "transfer-cookie-forged"];
+    let intents = ["login", "login-secret", "transfer-nosecret", "transfer-nocookie", "transfer-cookie", "transfer-cookie-other-ip", "transfer-cookie-expired", "transfer-cookie-forged", "transfer-cookie-forged-empty-key", "transfer-cookie-forged-first-line", "transfer-cookie-forged-trimmed"];
     let mut encs: Vec<String> = ["honest", "wrong-token", "stale-token", "other-key", "secret-garbage", "token-garbage"].iter().map(|s| s.to_string()).collect();
     for n in [0usize, 1, 127, 128, 129, 256] {
         encs.push(format!("garbage-{n}"));
@@ -430,7 +435,7 @@ pub fn core(rep: &Report, thorough: bool) {
     rep.set("admitted", json!(admitted.load(Ordering::Relaxed)));
     rep.set("refused", json!(refused.load(Ordering::Relaxed)));
     rep.set("exhaustive", json!(true));
-    rep.set("rule", json!("full product intent(8, three of them with a genuine-but-inapplicable or forged cookie of another identity) x encryption response(21) x authentication verdict(7) x routing(2) x transport/latency variant(7: plain, one byte at a time, authentication taking 8 s / 17 s / longer than the horizon, routing taking 34 s, Encryption Response sent 13 h after the request) [x claimed identity shape(3) in thorough]; one connection per element plus one prior connection that supplies the stale token; a state is the script reaching it"));
+    rep.set("rule", json!("full product intent(11, six of them with a genuine-but-inapplicable cookie of another identity or one forged under another key, the empty key, a line of the two-line secret or its trimmed form) x encryption response(21) x authentication verdict(7) x routing(2) x transport/latency variant(7: plain, one byte at a time, authentication taking 8 s / 17 s / longer than the horizon, routing taking 34 s, Encryption Response sent 13 h after the request) [x claimed identity shape(3) in thorough]; one connection per element plus one prior connection that supplies the stale token; a state is the script reaching it"));
     rep.sample(json!({"spec": all[0]}));
     rep.sample(json!({"spec": Spec { intent: "transfer-cookie".into(), enc: "honest".into(), verdict: "err".into(), routing: true, claim: "ascii".into(), transport: "plain".into() }, "expect": "admitted as the cookie's identity, service not called"}));
     rep.sample(json!({"spec": Spec { intent: "login".into(), enc: "token-prefix-1".into(), verdict: "claim".into(), routing: true, claim: "ascii".into(), transport: "plain".into() }, "expect": "nothing granted"}));
